@@ -74,6 +74,12 @@ fn opt_min(a: Option<EpochId>, b: EpochId) -> (r: Option<EpochId>)
 {
     match a { None => Some(b), Some(cur) => if b.as_u64() < cur.as_u64() { Some(b) } else { Some(cur) } }
 }
+// the same fold step for Iterator::max (used only if the source asks for a maximum)
+fn opt_max(a: Option<EpochId>, b: EpochId) -> (r: Option<EpochId>)
+    ensures r is Some, (r->0).0 >= b.0, a is Some ==> (r->0).0 >= (a->0).0, r == Some(b) || r == a,
+{
+    match a { None => Some(b), Some(cur) => if b.as_u64() > cur.as_u64() { Some(b) } else { Some(cur) } }
+}
 
 @@TransactionManager@@
 
